@@ -48,6 +48,7 @@ type c04Out struct {
 	viols   []c04Viol // first per key
 	harness string
 	reads   int64
+	stuck   map[int32][]int64 // byte limit -> offsets whose read does not reach the batch holding them
 }
 
 // c04Check judges one read below the high watermark.
@@ -113,6 +114,12 @@ func c04ReadAll(s *rpSys, p *rpPart, offsets []int64, mbs []int32, out *c04Out, 
 				fmt.Fprintf(h, "%d,%d:%d>%d r=%v l=%d;", o, mb, r.Start, r.Target, r.Reaches, r.Len)
 				if r.Start >= 0 && r.Start < r.Target {
 					out.nontriv = true // the read started at an earlier batch than the one holding o
+				}
+				if v != nil && pass == 0 {
+					if out.stuck == nil {
+						out.stuck = map[int32][]int64{}
+					}
+					out.stuck[mb] = append(out.stuck[mb], o)
 				}
 				if v != nil && !seen[v.key] {
 					seen[v.key] = true
@@ -436,6 +443,13 @@ func TestVerifC04(t *testing.T) {
 					}
 					mu.Unlock()
 					continue
+				}
+				if job.Kind == "broker" {
+					sum := map[string]string{}
+					for mb, offs := range o.stuck {
+						sum[fmt.Sprintf("maxBytes=%d", mb)] = fmt.Sprintf("%d offsets without progress (%d..%d)", len(offs), offs[0], offs[len(offs)-1])
+					}
+					rep.SetInfo(fmt.Sprintf("broker_config_%s_%s", job.Layout, job.Path), sum)
 				}
 				sig := o.sig
 				for _, v := range o.viols {
